@@ -73,6 +73,12 @@ pub fn check_cmp(o: &CmpObs, a: &Value, b: &Value, rep: &mut DeclReport) {
             rep.violate("cmp-differs:PartialEq", input.clone(), format!("{:?}", x), format!("{:?}", y), String::new());
         }
     }
+    if let (Some(x), Some(y)) = (&o.outer.eq_same, &o.inner.eq_same) {
+        rep.executions += 1;
+        if x != y {
+            rep.violate("cmp-differs:PartialEq(same object)", a.show(), format!("{:?}", x), format!("{:?}", y), String::new());
+        }
+    }
     if let (Some(x), Some(y)) = (&o.outer.pord, &o.inner.pord) {
         rep.executions += 1;
         rep.class(&format!("partial_cmp:{:?}", x.0));
